@@ -204,8 +204,11 @@ def main(tier):
         jobs.append(('two-instances', b, {'cc': 'gcc', 'cflags': ('-O1', '-fsanitize=address') if tier == 'quick' else ('-O1',), 'drv_args': (seqlen, 1500), 'timeout': 1600}))
 
     # a child made by <module>NewChild of a module without start, tables and shared memory is a fresh instance of its own
-    for mem, data in (('defined', 'overlap'), ('defined', 'passive+active'), ('imported', 'one')):
-        b = config_module(mem, data, 'none', 0, 'none', two_instances='newchild')
+    # ... and so is the child of a module that defines its table (NewChild runs the element segments on the CHILD's table) and has a
+    # defined start function (run on the child)
+    for mem, data, table, elems, start in (('defined', 'overlap', 'none', 0, 'none'), ('defined', 'passive+active', 'none', 0, 'none'), ('imported', 'one', 'none', 0, 'none'),
+                                           ('defined', 'one', 'defined', 1, 'none'), ('defined', 'one', 'defined', 2, 'defined'), ('none', 'none', 'defined', 1, 'none')):
+        b = config_module(mem, data, table, elems, start, two_instances='newchild')
         b.seq_len = seqlen
         b.desc += ' (+NewChild)'
         jobs.append(('two-instances', b, {'cc': 'gcc', 'cflags': ('-O1', '-fsanitize=address') if tier == 'quick' else ('-O1',), 'drv_args': (seqlen, 1500), 'timeout': 1600, 'defines': ('-DLS_NEWCHILD',)}))
